@@ -56,6 +56,7 @@ func vfGenShutdownSpecs(tier string, seed uint64, race bool) []vfSpec {
 		}
 		sp.X = map[string]int64{"q": int64(q)}
 		sp.XS = map[string]string{"mode": mode, "faults": desc}
+		sp.A.BlockWrite = r.Intn(4) == 0
 		il := sp.A.IL && sp.B.IL
 		sp.A.MaxMsg = vfEffMaxMsg(&sp.A, &sp.B, 2, il)
 		sp.B.MaxMsg = vfEffMaxMsg(&sp.B, &sp.A, 2, il)
@@ -168,6 +169,7 @@ func vfRunShutdown(t *testing.T, spec *vfSpec, res *vfRes) {
 			done chan struct{}
 			t0   time.Duration
 			t1   time.Duration
+			seq0 int64 // logical instant of the Shutdown call
 		}
 		call := func(side int) *sdRes {
 			r := &sdRes{done: make(chan struct{})}
@@ -179,12 +181,40 @@ func vfRunShutdown(t *testing.T, spec *vfSpec, res *vfRes) {
 				sim.net.markRel()
 				ev := sim.apiCall(side, "shutdown", 0)
 				r.t0 = sim.net.now()
+				r.seq0 = sim.net.seq.Add(1)
 				r.err = a.Shutdown(ctx)
 				r.t1 = sim.net.now()
 				sim.apiRet(ev, 0, r.err)
 			}()
 
 			return r
+		}
+		// blocking-write mode: a writer that is parked at the gate when Shutdown begins must be released with an error
+		type parkedRes struct {
+			err    error
+			t0, t1 time.Duration
+			s0, s1 int64 // logical instants of the call and the return of the second write
+			done   chan struct{}
+			hash   uint64
+		}
+		var parked *parkedRes
+		if spec.A.BlockWrite && mode != "cross-1" {
+			a0 := sim.getAssoc(0)
+			if pst, err := a0.OpenStream(77, PayloadTypeWebRTCBinary); err == nil {
+				big := vfMakeMsg(vfMsgKey(spec.Seed, 0, 77, 0), 0, int(a0.MaxMessageSize()))
+				second := vfMakeMsg(vfMsgKey(spec.Seed, 0, 77, 0), 1, 500)
+				parked = &parkedRes{done: make(chan struct{}), hash: vfMsgHash(53, second)}
+				go func() {
+					defer close(parked.done)
+					_, _ = pst.WriteSCTP(big, PayloadTypeWebRTCBinary)
+					parked.t0 = sim.net.now()
+					parked.s0 = sim.net.seq.Add(1)
+					_, parked.err = pst.WriteSCTP(second, PayloadTypeWebRTCBinary)
+					parked.s1 = sim.net.seq.Add(1)
+					parked.t1 = sim.net.now()
+				}()
+				time.Sleep(200 * time.Microsecond)
+			}
 		}
 		var ra, rb *sdRes
 		switch mode {
@@ -205,6 +235,23 @@ func vfRunShutdown(t *testing.T, spec *vfSpec, res *vfRes) {
 		// writes attempted after shutdown began must be rejected and never be read
 		time.Sleep(time.Millisecond)
 		lateHashes := map[uint64]bool{}
+		if parked != nil && ra != nil {
+			if vfWaitCh(parked.done, 25*time.Minute) != nil {
+				res.violate("C08", "parked-write/hang", "a blocking write parked at the gate when Shutdown began did not return within 25 min of virtual time")
+			} else {
+				res.count("c08_parked_writes", 1)
+				res.witness("parked write: began %v returned %v err=%v; shutdown call at %v", parked.t0, parked.t1, parked.err, ra.t0)
+				if parked.s0 < ra.seq0 && ra.seq0 < parked.s1 {
+					res.seen("writer-parked-at-shutdown")
+					res.count("c08_parked_at_shutdown", 1)
+					if parked.err == nil {
+						res.violate("C08", "parked-write/accepted", "a blocking write was parked at the gate when Shutdown was called (write began %v, Shutdown %v) and returned nil at %v: it was accepted after shutdown had begun", parked.t0, ra.t0, parked.t1)
+					} else {
+						lateHashes[parked.hash] = true
+					}
+				}
+			}
+		}
 		for side := 0; side < 2; side++ {
 			if (side == 0 && ra == nil) || (side == 1 && rb == nil) {
 				continue
